@@ -13,11 +13,11 @@ static void canon_priv(mpz_ptr n, mpz_ptr d) { mpz_t g; mpz_init(g); mpz_gcd(g, 
 void drv_c12(int tier, unsigned long seed, const char *extra) {
   shard_t sh = shard_parse(extra); long x = 0; int sz, how, j;
   static const int szs_q[] = {0, 1, 2, 3, 5, 9, 20, 60, 200}, szs_p[] = {0, 1, 2};
-  const int *szs = sh.pure ? szs_p : szs_q; int ns = sh.pure ? 3 : (tier ? 9 : 8);
-  for (sz = 0; sz < ns; sz++) for (how = 0; how < 10; how++) {
+  const int *szs = sh.pure ? szs_p : szs_q; int ns = sh.pure ? 2 : (tier ? 9 : 8);      /* pure (no Java) validation: one-limb operands, the definitions are slow */
+  for (sz = 0; sz < ns; sz++) for (how = 0; how < 12; how++) {
     mpz_t n1, d1, n2, d2, f, g; int L = szs[sz], s1, s2;
     x++; if (!MINE(sh, x)) continue;
-    if (sh.pure && how % 3) continue;
+    if (sh.pure && (how % 3 || how > 9 || (how == 9 && sz > 1))) continue;
     rec_reset("c12", x, seed);
     for (j = 0; j < 4; j++) callf("mpq_init", j); for (j = 0; j < 2; j++) callf("mpz_init", j);
     for (s1 = 0; s1 < 2; s1++) for (s2 = 0; s2 < 2; s2++) {
@@ -34,6 +34,8 @@ void drv_c12(int tier, unsigned long seed, const char *extra) {
       case 7: mpz_set_ui(n1, 0); break;                                              /* zero */
       case 8: mpz_set_ui(d1, 1); mpz_mul_2exp(d1, d1, rnd_below(200)); mpz_mul_2exp(n2, n2, rnd_below(130)); break;   /* powers of two */
       case 9: mpz_set(n2, n1); mpz_set(d2, d1); break;                               /* equal operands */
+      case 10: mpz_setbit(n1, 0); mpz_mul_2exp(d1, d1, 64 * (1 + rnd_below(3)) + (s1 ? rnd_below(64) : 0)); break;   /* whole zero limbs below a multi-limb denominator */
+      case 11: mpz_setbit(d1, 0); mpz_mul_2exp(n1, n1, 64 * (1 + rnd_below(3)) + (s2 ? rnd_below(64) : 0)); break;   /* ... numerator */
       default: break; }
       if (s1) mpz_neg(n1, n1); if (s2) mpz_neg(n2, n2);
       canon_priv(n1, d1); canon_priv(n2, d2);
@@ -51,7 +53,9 @@ void drv_c12(int tier, unsigned long seed, const char *extra) {
       if (SIZ(mpq_numref(Qp[0]))) { callf("mpq_inv", 2, 0); callf("mpq_set", 2, 0); callf("mpq_inv", 2, 2); }
       { static const int shf[] = {0, 1, 63, 64, 65, 127, 130, 200}; int k;
         for (k = 0; k < 8; k++) { callf("mpq_mul_2exp", 2, 0, (uint64_t)shf[k]); callf("mpq_div_2exp", 2, 0, (uint64_t)shf[k]); }
-        callf("mpq_set", 2, 0); callf("mpq_mul_2exp", 2, 2, (uint64_t)rnd_below(300)); callf("mpq_div_2exp", 2, 2, (uint64_t)rnd_below(300)); }
+        callf("mpq_set", 2, 0); callf("mpq_mul_2exp", 2, 2, (uint64_t)rnd_below(300)); callf("mpq_div_2exp", 2, 2, (uint64_t)rnd_below(300));
+        if (how == 8 || how >= 10) for (k = 0; k < 8; k++) {       /* in place, every shift class */
+          callf("mpq_set", 2, 0); callf("mpq_mul_2exp", 2, 2, (uint64_t)shf[k]); callf("mpq_set", 2, 0); callf("mpq_div_2exp", 2, 2, (uint64_t)shf[k]); } }
       callf("mpq_cmp", 0, 1); callf("mpq_cmp", 1, 0); callf("mpq_equal", 0, 1); callf("mpq_cmp", 0, 0); callf("mpq_equal", 0, 0); callf("mpq_sgn", 0);
       callf("mpq_cmp_ui", 0, (uint64_t)rnd_below(1000), (uint64_t)(1 + rnd_below(1000))); callf("mpq_cmp_si", 0, (int64_t)rnd_below(1000) - 500, (uint64_t)(1 + rnd_below(1000)));
       callf("mpq_get_num", 0, 0); callf("mpq_get_den", 1, 0); callf("mpq_cmp_z", 1, 0); callf("mpq_set_z", 3, 0); callf("mpq_get_d", 0);
